@@ -1330,6 +1330,7 @@ struct Stats {
     sign_refused: u64,
     sign_panicked: u64,
     restarts: u64,
+    allowlist_ops: u64,
     monitor_failures: u64,
     malformed: u64,
 }
@@ -1385,6 +1386,137 @@ fn witness_domain(_args: &Args) {
     );
 }
 
+// ------------------------------------------------------------------ the operator's allowlist
+
+fn allow_entry_script(s: &ScriptBuf) -> String {
+    Address::from_script(s, NETWORK).expect("address").to_string()
+}
+fn allow_entry_xpub(x: &Xpub) -> String {
+    format!("xpub:{}", x)
+}
+
+/// One operation on the allowlist through the node's real entry points.  `refw` is the harness's own record
+/// of what the operator's list is: it follows the meaning of the operation (add = union, remove = difference,
+/// set = exactly the given list) whenever the node accepted it, and is never read back from the node.
+fn mutate_allowlist(rng: &mut Rng, node: &Arc<Node>, refw: &mut RefWallet, in_use: &[ScriptBuf]) -> Value {
+    let secp = Secp256k1::new();
+    let fresh_script = |rng: &mut Rng, refw: &RefWallet| refw.script_of(&refw.wallet_key(&path_of(&[12_000 + rng.below(500) as u32])), rng.below(3));
+    let fresh_xpub = |rng: &mut Rng| {
+        let s = rng.bytes32();
+        Xpub::from_priv(&secp, &Xpriv::new_master(NETWORK, &s).unwrap())
+    };
+    // what the operation names
+    let mut scripts: Vec<ScriptBuf> = vec![];
+    let mut xpubs: Vec<Xpub> = vec![];
+    let listed_in_use: Vec<ScriptBuf> = in_use.iter().filter(|s| refw.allow_scripts.contains(s)).cloned().collect();
+    let op = match rng.below(12) {
+        0..=3 => "set-empty",
+        4 | 5 => "remove",
+        6 => "remove-all",
+        7 | 8 => "set",
+        9 => "set-same",
+        _ => "add",
+    };
+    match op {
+        "set-empty" => {}
+        "remove" => {
+            // preferably a destination the next spend pays to
+            if !listed_in_use.is_empty() && rng.chance(3, 4) {
+                scripts.push(rng.pick(&listed_in_use).clone());
+            } else if !refw.allow_scripts.is_empty() {
+                scripts.push(rng.pick(&refw.allow_scripts).clone());
+            }
+            if !refw.xpubs.is_empty() && rng.chance(1, 2) {
+                xpubs.push(*rng.pick(&refw.xpubs));
+            }
+        }
+        "remove-all" | "set-same" => {
+            scripts = refw.allow_scripts.clone();
+            xpubs = refw.xpubs.clone();
+        }
+        "set" => {
+            for s in &refw.allow_scripts {
+                if rng.chance(1, 2) {
+                    scripts.push(s.clone());
+                }
+            }
+            for x in &refw.xpubs {
+                if rng.chance(1, 2) {
+                    xpubs.push(*x);
+                }
+            }
+            for _ in 0..rng.below(3) {
+                scripts.push(fresh_script(rng, refw));
+            }
+            if rng.chance(1, 3) {
+                xpubs.push(fresh_xpub(rng));
+            }
+        }
+        _ => {
+            for _ in 0..1 + rng.below(2) {
+                scripts.push(fresh_script(rng, refw));
+            }
+            if rng.chance(1, 3) {
+                xpubs.push(fresh_xpub(rng));
+            }
+        }
+    }
+    let mut entries: Vec<String> = scripts.iter().map(allow_entry_script).collect();
+    entries.extend(xpubs.iter().map(allow_entry_xpub));
+    let r = catch_unwind(AssertUnwindSafe(|| match op {
+        "set-empty" | "set" | "set-same" => node.set_allowlist(&entries),
+        "remove" | "remove-all" => node.remove_allowlist(&entries),
+        _ => node.add_allowlist(&entries),
+    }));
+    let accepted = matches!(r, Ok(Ok(())));
+    if accepted {
+        match op {
+            "set-empty" | "set" | "set-same" => {
+                refw.allow_scripts = vec![];
+                refw.xpubs = vec![];
+                for s in scripts {
+                    if !refw.allow_scripts.contains(&s) {
+                        refw.allow_scripts.push(s);
+                    }
+                }
+                for x in xpubs {
+                    if !refw.xpubs.contains(&x) {
+                        refw.xpubs.push(x);
+                    }
+                }
+            }
+            "remove" | "remove-all" => {
+                refw.allow_scripts.retain(|s| !scripts.contains(s));
+                refw.xpubs.retain(|x| !xpubs.contains(x));
+            }
+            _ => {
+                for s in scripts {
+                    if !refw.allow_scripts.contains(&s) {
+                        refw.allow_scripts.push(s);
+                    }
+                }
+                for x in xpubs {
+                    if !refw.xpubs.contains(&x) {
+                        refw.xpubs.push(x);
+                    }
+                }
+            }
+        }
+    }
+    json!({"allowlist_operation": match op { "set-empty" | "set" | "set-same" => "Node::set_allowlist", "remove" | "remove-all" => "Node::remove_allowlist", _ => "Node::add_allowlist" },
+           "entries": entries, "accepted": accepted,
+           "operator_list_afterwards": {"scripts": refw.allow_scripts.iter().map(allow_entry_script).collect::<Vec<_>>(), "xpubs": refw.xpubs.iter().map(|x| x.to_string()).collect::<Vec<_>>()}})
+}
+
+/// the allowlist answers of every output, from the harness's record of the operator's list
+fn refresh_allow(outs: &mut [OutSpec], refw: &RefWallet) {
+    for o in outs.iter_mut() {
+        let path = o.opath.clone().unwrap_or_else(|| path_of(&[]));
+        o.allow_path = refw.allow(&o.script, &path);
+        o.allow_script = refw.allow(&o.script, &path_of(&[])) == Some(true);
+    }
+}
+
 fn node_domain(args: &Args) {
     let mut rng = Rng::new(mix_seed(args.seed ^ 0xc08));
     let mut stats = Stats::default();
@@ -1408,7 +1540,11 @@ fn node_domain(args: &Args) {
         let mut now = rng.below(1_000_000);
         let mut log: Vec<(u64, u128)> = vec![];
         let mut steps: Vec<StepObs> = vec![];
-        let n_steps = 1 + (rng.below(3) as usize).min(if rng.chance(1, 2) { 0 } else { 2 });
+        let mut timeline: Vec<Value> = vec![];
+        let mut n_steps = 1 + (rng.below(3) as usize).min(if rng.chance(1, 2) { 0 } else { 2 });
+        if n_steps == 1 && b.outs.iter().any(|o| o.allow_script || o.allow_path == Some(true)) && rng.chance(2, 3) {
+            n_steps = 2; // a spend, an edit of the allowlist, the spend again
+        }
         let mut node = b.node.clone();
         for s in 0..n_steps {
             if s > 0 {
@@ -1420,9 +1556,11 @@ fn node_domain(args: &Args) {
                     _ => rng.below(ivl * 2),
                 };
             }
+            let sc: u128 = b.outs.iter().map(counted).sum();
             let values = choose_input_values(&mut rng, b.ins.len(), sc, w, &b.pol);
             let answer = rng.chance(3, 5);
             let st = node_step(&b, &node, &values, now, answer, &mut log, &mut stats);
+            timeline.push(json!({"spend": steps.len(), "check_code": st.check_code, "handle_code": st.handle_code}));
             stats.steps += 1;
             *stats.check_codes.entry(st.check_code).or_insert(0) += 1;
             *stats.handle_codes.entry(st.handle_code).or_insert(0) += 1;
@@ -1437,11 +1575,22 @@ fn node_domain(args: &Args) {
             if stop {
                 break;
             }
+            // the operator edits the allowlist between two requests
+            if s + 1 < n_steps && rng.chance(1, 2) {
+                let in_use: Vec<ScriptBuf> = b.outs.iter().map(|o| o.script.clone()).collect();
+                for _ in 0..1 + rng.below(2) {
+                    let ev = mutate_allowlist(&mut rng, &node, &mut b.refw, &in_use);
+                    timeline.push(ev);
+                    stats.allowlist_ops += 1;
+                }
+                refresh_allow(&mut b.outs, &b.refw);
+            }
             // a restart from the store between two requests (channels and allowlist come back from it)
             if s + 1 < n_steps && rng.chance(1, 4) && b.outs.iter().all(|o| o.chan.is_none()) {
                 node = b.world.restart(&node.get_id());
                 b.node = node.clone();
                 stats.restarts += 1;
+                timeline.push(json!("restart from the store"));
             }
         }
         let all_mon: Vec<String> = steps.iter().flat_map(|s| s.monitor.clone()).collect();
@@ -1459,7 +1608,7 @@ fn node_domain(args: &Args) {
         emit(
             "CASE",
             json!({"id": case, "kind": "node", "policy": pol_json(&b.pol), "transaction": tx_json(&b, &vec![0; b.ins.len()]),
-                   "steps": steps.iter().map(|s| s.json.clone()).collect::<Vec<_>>(),
+                   "steps": steps.iter().map(|s| s.json.clone()).collect::<Vec<_>>(), "timeline": timeline,
                    "n_funded": n_funded, "accepted": steps.iter().any(|s| s.check_code == 0),
                    "monitor_violation": monitor, "c11_violations": c11, "coq": coq}),
         );
@@ -1474,7 +1623,7 @@ fn node_domain(args: &Args) {
                "accepted_steps_with_channels": stats.accepted_with_channels,
                "accepted_steps_with_two_or_more_channels": stats.accepted_with_two_or_more_channels,
                "signed": stats.signed, "sign_refused": stats.sign_refused, "sign_panicked": stats.sign_panicked,
-               "restarts": stats.restarts, "malformed_cases": stats.malformed, "monitor_failures": stats.monitor_failures}),
+               "restarts": stats.restarts, "allowlist_operations": stats.allowlist_ops, "malformed_cases": stats.malformed, "monitor_failures": stats.monitor_failures}),
     );
 }
 
@@ -1709,9 +1858,22 @@ fn handler_domain(args: &Args) {
         }
         let adds: Vec<String> = refw.allow_scripts.iter().map(|s| Address::from_script(s, NETWORK).expect("address").to_string()).collect();
         node.add_allowlist(&adds).expect("add_allowlist");
+        // the operator edits the list before the request comes (the harness keeps its own record in refw)
+        let mut allow_events: Vec<Value> = vec![];
+        if rng.chance(1, 3) {
+            let in_use: Vec<ScriptBuf> = houts.iter().map(|o| o.script.clone()).collect();
+            for _ in 0..1 + rng.below(2) {
+                allow_events.push(mutate_allowlist(&mut rng, &node, &mut refw, &in_use));
+            }
+            for o in houts.iter_mut() {
+                if o.class == "allowlisted-script" && !refw.allow_scripts.contains(&o.script) {
+                    o.class = "dropped-from-allowlist";
+                }
+            }
+        }
 
         // ---- values: what the outputs take, the fee the request shows, and what the lie hides
-        let sum_out_counted: u128 = houts.iter().filter(|o| o.class != "unknown").map(|o| o.value as u128).sum();
+        let sum_out_counted: u128 = houts.iter().filter(|o| o.class != "unknown" && o.class != "dropped-from-allowlist").map(|o| o.value as u128).sum();
         let sum_out_all: u128 = houts.iter().map(|o| o.value as u128).sum();
         let _ = sum_out_all;
         // weight: outputs and inputs are fixed now (values do not change sizes)
@@ -2071,6 +2233,7 @@ fn handler_domain(args: &Args) {
                         "true_value_sat": true_vals[k], "claimed_witness_utxo_value_sat": claimed[k].as_ref().map(|c| c.value.to_sat()),
                         "previous_tx_in_request": psbt.inputs[k].non_witness_utxo.is_some(), "previous_output_index": prevs[k].1})).collect::<Vec<_>>(),
                    "outputs": outs.iter().map(out_json).collect::<Vec<_>>(),
+                   "allowlist_operations_before_the_request": allow_events,
                    "now": now, "approver_answers": answer, "request_bytes": bytes.len(),
                    "observed": {"code(0 reply,2 error,3 panic,4 refused at decode,5 decode panic)": code, "asked_about": asked,
                                 "reply_valid_for_true_prevouts": usable, "fee_control_before": vc_json(&c0), "fee_control_after": vc_json(&c1)},
